@@ -92,15 +92,17 @@ structure J (pt : PtState) (h : Ref.State) : Prop where
   den : ∀ d ∈ pt.inodes, Denotes h d.handle d.id
   byId : pt.byId.lookup h.exportRoot = some ROOT_ID
   byH : ∀ d ∈ pt.inodes, ∀ k, d.inode = ROOT_ID → d.handle = .handle k → pt.byHandle.lookup k = some ROOT_ID
+  /-- fresh inode numbers start above the root's -/
+  next : ROOT_ID < pt.nextInode
 
 /-- `J` reads only the inode tables -/
 theorem J.tables {pt pt' : PtState} {h : Ref.State} (j : J pt h) (h1 : pt'.inodes = pt.inodes) (h2 : pt'.byId = pt.byId)
-    (h3 : pt'.byHandle = pt.byHandle) : J pt' h := by
-  obtain ⟨a, b, c, d, e, f, g, i⟩ := j
-  constructor <;> (try rw [h1]) <;> (try rw [h2]) <;> (try rw [h3]) <;> assumption
+    (h3 : pt'.byHandle = pt.byHandle) (h4 : pt'.nextInode = pt.nextInode) : J pt' h := by
+  obtain ⟨a, b, c, d, e, f, g, i, k⟩ := j
+  constructor <;> (try rw [h1]) <;> (try rw [h2]) <;> (try rw [h3]) <;> (try rw [h4]) <;> assumption
 
 theorem J.host {pt : PtState} {h h' : Ref.State} (j : J pt h) (g : Ref.Good h') (w : Ref.Wf h') (e : Ref.Ext h h') : J pt h' := by
-  refine ⟨g, w, j.rootEx, ?_, ?_, ?_, ?_, j.byH⟩
+  refine ⟨g, w, j.rootEx, ?_, ?_, ?_, ?_, j.byH, j.next⟩
   · intro d hd h1; rw [e.root]; exact j.rootId d hd h1
   · intro d hd h1; rw [e.root] at h1; exact j.uniq d hd h1
   · intro d hd; exact (j.den d hd).ext e
@@ -156,10 +158,11 @@ theorem jsafe_try {m : M α} (hm : JSafe m) : JSafe (M.try' m) := by
 
 /-- an action without host calls that leaves the inode tables alone (handle table bookkeeping) -/
 theorem jsafe_of_pure (m : M α)
-    (hm : ∀ pt, ∃ r, m pt = .pure r ∧ r.2.inodes = pt.inodes ∧ r.2.byId = pt.byId ∧ r.2.byHandle = pt.byHandle) : JSafe m := by
+    (hm : ∀ pt, ∃ r, m pt = .pure r ∧ r.2.inodes = pt.inodes ∧ r.2.byId = pt.byId ∧ r.2.byHandle = pt.byHandle ∧
+      r.2.nextInode = pt.nextInode) : JSafe m := by
   refine ⟨fun pt h j => ?_⟩
-  obtain ⟨r, e, h1, h2, h3⟩ := hm pt
+  obtain ⟨r, e, h1, h2, h3, h4⟩ := hm pt
   rw [e]
-  exact j.tables h1 h2 h3
+  exact j.tables h1 h2 h3 h4
 
 end Fbr.PtHost
